@@ -150,7 +150,7 @@ def main(chk, replay=None):
                 % (t["parts"], t["ctxs"], t["esclen"], esc_nontrivial, docs, len(hruns), pushes),
         "samples": [{"template": r["text"], "doc": r["final"]["doc"], "canary": r["final"]["canary"]} for r in runs[:2] + hruns[:2]],
         "checker_cmd": tot["cmd"] + " ; " + tv["cmd"],
-        "trace_states": tv["states"], "constants_bound": bound, "model_actions": tot["actions"],
+        "trace_states": tv["states"], "constants_bound": bound,
         "canary_hits_direct": sum(r["final"]["canary"] for r in runs if r["init"]["kind"] == "direct"),
         "canary_hits_handler": sum(r["final"]["canary"] for r in hruns),
         "families": sorted({c["fam"] for c in cases}), "model_wall_s": tot["wall"], "trace_wall_s": tv["wall_s"],
